@@ -22,6 +22,8 @@ package zklogstar
 
 //@ func (*Proof).Verify
 //@   nopanic[C05]
+//@   modifies nothing
+//@   allocates
 //@   requires hash != nil && hash.h != nil && public.C != nil && public.X != nil && public.G != nil && pkok(public.Prover) && pedok(public.Aux) && (p != nil ==> shaped(p))
 
 //@ func challenge
